@@ -191,9 +191,26 @@ class BuildError(Exception):
     pass
 
 
+# Properties whose theorems and oracles do not speak about the CONTENT of the scanner's rule table.  When lexer.l no
+# longer translates (an action the translator does not know), their checks go on with the frozen last-good rule table
+# (tools/selftest/LexRules.v): the model then scans with the old rules, and any visible difference still shows up as a
+# model/library disagreement on their own scenarios.  All other properties report the broken tie.
+RULE_TABLE_INDEPENDENT = {'C04', 'C07', 'C09', 'C10', 'C11', 'C12', 'C14', 'C16', 'C17', 'C18', 'C19'}
+FALLBACK_OK = False        # set by tools/check.py for the property being checked
+FALLBACK_USED = False
+
+
 def regen_lexrules():
+    global FALLBACK_USED
     rc, out = sh([sys.executable, os.path.join(VERIF, 'tools', 'lex2coq.py'),
                   os.path.join(REPO, 'src', 'lexer.l'), os.path.join(REPO, 'src', 'confuse.h'), COQ])
+    if rc != 0 and FALLBACK_OK:
+        gold = os.path.join(VERIF, 'tools', 'selftest', 'LexRules.v')
+        dst = os.path.join(COQ, 'LexRules.v')
+        if not os.path.exists(dst) or open(dst).read() != open(gold).read():
+            shutil.copy(gold, dst)
+        FALLBACK_USED = True
+        return 0, out + '\nlex2coq failed; this property does not depend on the rule table: frozen tools/selftest/LexRules.v used\n'
     return rc, out
 
 
